@@ -173,11 +173,48 @@ fn run_extdel(keep: u64, msg: usize) -> Option<String> {
     let _ = std::fs::remove_dir_all(&dir);
     None
 }
+/// entries that carry the prefix but are not log files (sub-directories, symbolic links) are there before the writer starts: they are
+/// neither counted nor deleted, the writer starts, keeps running and the newest event is on disk within the keep-size
+fn run_foreign(keep: u64, msg: usize) -> Option<String> {
+    use servlin::log::internal::LogEvent;
+    use servlin::log::{tag, LogFileWriter};
+    let dir = scratch();
+    let desc = format!("foreign keep={keep} msg={msg}");
+    let fail = |m: String| { let _ = std::fs::remove_dir_all(&dir); Some(format!("{desc} {m}")) };
+    let _ = std::fs::create_dir_all(dir.join("log.d"));
+    let _ = std::fs::write(dir.join("log.d").join("notes.txt"), vec![b'n'; 5000]);
+    for k in 0..12 { let _ = std::fs::create_dir_all(dir.join(format!("log.dir{k}"))); let _ = std::os::unix::fs::symlink(format!("/nonexistent/{}", "t".repeat(200)), dir.join(format!("log.link{k}"))); }
+    let r = std::panic::catch_unwind(|| LogFileWriter::new_builder(dir.join("log"), keep).with_max_write_bytes(65536).start_writer_thread());
+    let sender = match r { Ok(Ok(s)) => s, Ok(Err(e)) => return fail(format!("expected=writer-starts actual={e:?}")), Err(_) => return fail("expected=writer-starts actual=panic".into()) };
+    let mut max_line = 0u64; let mut refused = None;
+    for i in 0..60usize {
+        let ev = LogEvent::new(servlin::log::Level::Info, tag("msg", format!("{i:08}{}", "x".repeat(msg))));
+        let mut b = Vec::new(); ev.write_jsonl(&mut b).unwrap(); max_line = max_line.max(b.len() as u64);
+        if sender.send(ev).is_err() { refused = Some(i); break; }
+        std::thread::sleep(Duration::from_millis(2));
+    }
+    std::thread::sleep(Duration::from_millis(400));
+    let files: Vec<PathBuf> = std::fs::read_dir(&dir).unwrap().map(|e| e.unwrap().path()).filter(|p| p.is_file() && !p.is_symlink() && p.file_name().unwrap().to_string_lossy().starts_with("log")).collect();
+    let total: u64 = files.iter().map(|p| std::fs::metadata(p).map(|m| m.len()).unwrap_or(0)).sum();
+    let last_on_disk = files.iter().any(|p| std::fs::read_to_string(p).map(|t| t.contains("00000059x")).unwrap_or(false));
+    let foreign_ok = dir.join("log.d").join("notes.txt").exists() && (0..12).all(|k| dir.join(format!("log.dir{k}")).is_dir() && dir.join(format!("log.link{k}")).is_symlink());
+    drop(sender);
+    if let Some(i) = refused { return fail(format!("expected=every event accepted (the writer keeps running) actual=event {i} refused")); }
+    if !last_on_disk { return fail("expected=last event written actual=not on disk (writer thread dead?)".into()); }
+    if total > keep + max_line { return fail(format!("expected=total<={keep}+{max_line} actual=total {total}")); }
+    if !foreign_ok { return fail("expected=entries that are not log files left alone actual=some are gone".into()); }
+    let _ = std::fs::remove_dir_all(&dir);
+    None
+}
 fn main() {
     std::panic::set_hook(Box::new(|_| {}));
     let args: Vec<String> = std::env::args().collect();
     if args.len() >= 3 && args[1] == "replay" {
         let w = args[2..].join(" ");
+        if w.starts_with("foreign ") {
+            let g = |k: &str| -> u64 { w.split(&format!("{k}=")).nth(1).unwrap().split(' ').next().unwrap().parse().unwrap() };
+            match run_foreign(g("keep"), g("msg") as usize) { Some(m) => { println!("WITNESS {m}"); std::process::exit(1) } None => { println!("OK witness no longer fails"); std::process::exit(0) } }
+        }
         if w.starts_with("extdel ") {
             let g = |k: &str| -> u64 { w.split(&format!("{k}=")).nth(1).unwrap().split(' ').next().unwrap().parse().unwrap() };
             match run_extdel(g("keep"), g("msg") as usize) { Some(m) => { println!("WITNESS {m}"); std::process::exit(1) } None => { println!("OK witness no longer fails"); std::process::exit(0) } }
@@ -224,6 +261,7 @@ fn main() {
         if let Some(m) = run_writer2(keep, write, cnt, msg, old) { if found.len() < 5 { found.push(m) } }
     }
     n += 1; if let Some(m) = run_extdel(140000, 1000) { if found.len() < 5 { found.push(m) } }
+    for keep in [1500u64, 20000] { n += 1; if let Some(m) = run_foreign(keep, 100) { if found.len() < 5 { found.push(m) } } }
     println!("EVALUATED {n}");
     for f in &found { println!("WITNESS {f}"); }
     std::process::exit(if found.is_empty() { 0 } else { 1 });
